@@ -391,3 +391,37 @@ def o5(h):
     # max(x,y) = -min_base(-x,-y): the code's own band test is on (-x)-(-y), which is exactly -(x-y)
     run('max', lambda a, b, w: SF.max(a, b, w), 3, z3.fpMax(x, y), z3.fpLT(z3.fpAbs(z3.fpSub(RNE, z3.fpNeg(x), z3.fpNeg(y))), e))
     run('abs', lambda a, w: SF.abs(a, w), 2, z3.fpAbs(x), z3.fpLT(z3.fpAbs(z3.fpSub(RNE, z3.fpNeg(x), x)), e))
+
+
+@obligation(P, 'O6.friction_on_numpy_arrays_no_mutation', cap=300)
+def o6(h):
+    """the friction potential evaluated from its REAL source on a NumPy array of symbolic slips: the value has the stated
+    closed form on both branches and the caller's array is left untouched, so a second evaluation on the same array gives
+    the same value (PX; the JAX path of O2 cannot see in-place updates, which rebind instead of mutating there)"""
+    from .. import px
+    h.encoded('optimism.contact.Friction:compute_friction_energy_from_perp_slip (real source on proxies)', 'optimism.Math:safe_sqrt (stubbed by sqrt)')
+    h.bounds('slip in R^2, mu >= 0, sReg > 0: all reals; two successive evaluations on the same NumPy array')
+
+    def fn(ex):
+        import types
+        math_stub = types.SimpleNamespace(safe_sqrt=lambda x: px.NP.sqrt(x))
+        mod = px.load_module('optimism/contact/Friction.py', shims={'optimism.Math': math_stub})
+        s = ex.vec('s', 2)
+        s_in = s.copy()
+        mu, r = ex.real('mu'), ex.real('sReg')
+        ex.assume(mu >= 0)
+        ex.assume(r > 0)
+        par = mod.Params(mu, r)
+        e1 = mod.compute_friction_energy_from_perp_slip(s, par)
+        U = px.unwrap
+        ex.goal('input_array_left_untouched', Eq(U(s), U(s_in)))
+        e2 = mod.compute_friction_energy_from_perp_slip(s, par)
+        ex.goal('second_evaluation_on_the_same_array_gives_the_same_value', Eq(U(e2), U(e1)))
+        ss = s_in[0] * s_in[0] + s_in[1] * s_in[1]
+        inside = bool(ss <= r * r)
+        if inside:
+            ex.goal('quadratic_inside_the_switch_radius', Eq(U(e1 * (2.0 * r)), U(mu * ss)))
+        else:
+            n = px.NP.sqrt(ss)
+            ex.goal('coulomb_minus_half_sReg_outside', Eq(U(e1), U(mu * (n - 0.5 * r))))
+    px.run_px(h, 'friction_numpy', fn, cap=30, div_mode='goal', sqrt_mode='goal')
